@@ -15,20 +15,19 @@ CONSTANTS
  Tries = 2
  NextHop = 4 Unstable = 24 CacheTO = 4 Inactive = 8 RemoveDelay = 2 SweepEvery = 2 PingEvery = 3 MaxTime = 1000
  CreateGuard = TRUE
- MaxCircuits = 2 MaxData = 2 MaxLoss = 0 MaxDup = 0 MaxAdv = 2 MaxNow = 0
- Goals = {1, 2}
+ MaxCircuits = 1 MaxData = 1 MaxLoss = 2 MaxDup = 0 MaxAdv = 0 MaxNow = 40
+ Goals = {2}
  Origins = {o}
- AdvKinds = {"tamper", "splice", "inject", "header", "plain"}
- TrackWire = TRUE
+ AdvKinds = {}
+ TrackWire = FALSE
  UseIds = FALSE
- NodeTeardown = FALSE
- MayVanish = FALSE
- SweepRelays = TRUE
+ NodeTeardown = TRUE
+ MayVanish = TRUE
+ SweepRelays = FALSE
  Aead = TRUE
  CheckIdent = TRUE
  AutoTimers = TRUE
 INVARIANT TypeOK
-INVARIANT ExitIntegrity
-INVARIANT ReturnIntegrity
-INVARIANT LayerDepth
-INVARIANT NoRepeatOnLinks
+INVARIANT Reclaimed
+INVARIANT RelayEarlyBudget
+PROPERTY JoinLimit
